@@ -1080,7 +1080,15 @@ func (w *dw) finalRepaint() {
 	}
 }
 
-func TestC01(t *testing.T) { rapid.Check(t, func(rt *rapid.T) { runDraw(rt, "C01") }) }
+func TestC01(t *testing.T) {
+	rapid.Check(t, func(rt *rapid.T) {
+		if rapid.IntRange(0, 4).Draw(rt, "c01part") == 0 {
+			runC01painters(rt)
+		} else {
+			runDraw(rt, "C01")
+		}
+	})
+}
 func TestC13(t *testing.T) {
 	rapid.Check(t, func(rt *rapid.T) {
 		if rapid.IntRange(0, 3).Draw(rt, "c13part") == 0 {
